@@ -99,4 +99,22 @@ theorem set_str_pow2_val (b : Nat) (hb : 2 ≤ b) (hb62 : b ≤ 62) (hp : pow2P 
 
 example : set_str_pow2 8 (List.replicate 22 7) = [2 ^ 64 - 1, 3] := by decide +kernel
 
+/-- mpz_set_str accepts exactly the language of `parseSpec` and returns exactly its value: for every byte
+    string and every base except the undocumented base 1 (bases above 62 and negative bases are rejected by
+    both).  The model goes through the digit table, the leading-zero skipping, and mpn_set_str at limb level
+    (power-of-two packing / basecase Horner; divide-and-conquer at specification level); the specification
+    is the declarative `parseSpec` (white space, sign, base-0 prefixes, case rule, embedded white space).
+    (For base 1 the C accepts strings of `0` characters and returns 0; the manual does not define base 1.) -/
+theorem mpz_set_str_eq_parse (base : Int) (hb1 : base ≠ 1) (s : List Nat) (hs : ∀ c ∈ s, c < 256) :
+    mpz_set_str base s = parseSpec base s :=
+  mpz_set_str_eq_parse_of digit_tab_ok.2 bases_table_ok.1 base hb1 s hs
+
+example : mpz_set_str 0 ("  -0x1F f".toUTF8.toList.map (·.toNat)) = some (-511) := by decide +kernel
+example : parseSpec 0 ("  -0x1F f".toUTF8.toList.map (·.toNat)) = some (-511) := by decide +kernel
+example : parseSpec 10 ("- 5".toUTF8.toList.map (·.toNat)) = none := by decide +kernel
+example : parseSpec 0 ("0x".toUTF8.toList.map (·.toNat)) = some 0 := by decide +kernel
+example : parseSpec 63 ("1".toUTF8.toList.map (·.toNat)) = none := by decide +kernel
+example : parseSpec 62 ("zZ".toUTF8.toList.map (·.toNat)) = some (61 * 62 + 35) := by decide +kernel
+example : parseSpec 36 ("zZ".toUTF8.toList.map (·.toNat)) = some (35 * 36 + 35) := by decide +kernel
+
 end Mpir.Radix
